@@ -73,3 +73,7 @@ impl NtpClock for NtpClockWrapper {
         })
     }
 }
+
+#[cfg(feature = "pendulum_project_ntpd_rs_verif")]
+#[path = "/verif/hooks/ntpd/daemon_clock.rs"]
+pub mod vh_daemon_clock;
